@@ -17,6 +17,7 @@ import (
 
 	"verif/engine/explore"
 	"verif/gen"
+	"verif/ref/refseg"
 )
 
 // Connection-level scenarios for C09 (stream ids as the PEER sees them on the wire) and C10
@@ -35,6 +36,7 @@ type idsPeer struct {
 	queue       []*frame.Frame
 	outstanding map[int16]string
 	seen        []int16
+	responses   int
 	err         string
 }
 
@@ -91,10 +93,29 @@ func (p *idsPeer) write(f *frame.Frame) {
 	_, _ = p.e.Write(b)
 }
 
-// respond writes one response page for req; final pages retire the id.
+// respond writes one response page for req; final pages retire the id. On a v5 connection every
+// third response is larger than one segment and is cut over several non-self-contained segments,
+// each time with a different total length.
 func (p *idsPeer) respond(req *frame.Frame, page int, final bool) {
 	tag, _ := tagOf(req)
-	p.write(pageFor(p.v, req.Header.StreamId, fmt.Sprintf("%s#%d", tag, page), page, final))
+	f := pageFor(p.v, req.Header.StreamId, fmt.Sprintf("%s#%d", tag, page), page, final)
+	p.responses++
+	if p.modern && p.responses%3 == 1 {
+		size := 135000 + 1777*p.responses
+		f.Body.Message.(*message.RowsResult).Data = message.RowSet{{gen.Payload(size, "text")}}
+		env := envelope(f)
+		var parts []int
+		for rem := len(env); rem > 0; rem -= refseg.MaxPayload {
+			if rem > refseg.MaxPayload {
+				parts = append(parts, refseg.MaxPayload)
+			} else {
+				parts = append(parts, rem)
+			}
+		}
+		writeSplit(p.e, env, parts, false)
+	} else {
+		p.write(f)
+	}
 	if final {
 		delete(p.outstanding, req.Header.StreamId)
 	}
@@ -154,7 +175,10 @@ func collect(r client.InFlightRequest) []string {
 		if !ok {
 			return tags
 		}
-		t, _ := tagOf(f)
+		t, data := tagOf(f)
+		if len(data) > 1 && !bytes.Equal(data, gen.Payload(len(data), "text")) {
+			t += "!corrupt" // a response reassembled from several segments must carry what the peer sent
+		}
 		tags = append(tags, t)
 	}
 }
